@@ -111,6 +111,7 @@ def run_property(pm, tier, seed, only_cfg=None, only_case=None, jobs=None):
             # value violations
             seen = set()
             for sat in r['sat']:
+                if hasattr(pm, 'on_value') and sat.get('kind') != 'post' and pm.on_value(c, cfg, sat) == 'ignore': continue
                 rep = sat.get('replay') or {}
                 if rep.get('confirmed'):
                     agg['sat_confirmed'] += 1
